@@ -94,12 +94,20 @@ func CmdCheck(cfg RunConfig) int {
 		ls, locked := lock[o.Name]
 		per = append(per, evObl{o.Name, o.Kind, o.Status, o.Result.Solver, o.Result.Ms, o.Pos, o.Src})
 		good := o.Status == "discharged" || o.Status == "cover-sat"
-		if locked && ls == "cover-undecided" {
-			// vacuity guard that the solvers could not decide on the unchanged tree: informational only
+		if locked && (ls == "cover-undecided" || ls == "undecided") {
+			// not decided on the unchanged tree either: informational only, listed in the evidence
+			unlocked = append(unlocked, o.Name+" ("+o.Status+", undecided on the unchanged tree)")
 			continue
 		}
 		if !locked {
-			unlocked = append(unlocked, o.Name+" ("+o.Status+")")
+			// an obligation that did not exist on the unchanged tree (new call site, new partial operation, new loop):
+			// it must hold, otherwise the other proofs of the function rest on an unproved assumption
+			if good || o.Cover {
+				unlocked = append(unlocked, o.Name+" ("+o.Status+", new)")
+				continue
+			}
+			nObl++
+			violations = append(violations, x_reportViolation(cfg, pr, o))
 			continue
 		}
 		if ls == "known-finding" {
